@@ -481,19 +481,7 @@ func isMinOf(v ssa.Value, isA, isB func(ssa.Value) bool) bool {
 		return false
 	}
 	x, y := cmp.X, cmp.Y
-	matches := func(p, q ssa.Value) bool {
-		if p == q || ir.SeeThrough(p) == ir.SeeThrough(q) {
-			return true
-		}
-		// two loads of the same global / field path
-		up, ok1 := ir.SeeThrough(p).(*ssa.UnOp)
-		uq, ok2 := ir.SeeThrough(q).(*ssa.UnOp)
-		if ok1 && ok2 {
-			pp, pq := ir.PathOf(up.X), ir.PathOf(uq.X)
-			return pp.Root == pq.Root && pp.String() == pq.String() && !pp.Opaque
-		}
-		return false
-	}
+	matches := sameExpr
 	// which edge of the phi corresponds to the 'then' side
 	// then-side sets the phi to the edge coming from the then block (Succs[0]) - find the pred index
 	thenBlock := idom.Succs[0]
@@ -514,6 +502,30 @@ func isMinOf(v ssa.Value, isA, isB func(ssa.Value) bool) bool {
 		return matches(x, elseVal) && matches(y, thenVal) || false
 	case "<", "<=":
 		return matches(x, thenVal) && matches(y, elseVal) || matches(y, elseVal) && matches(x, thenVal)
+	}
+	return false
+}
+
+// sameExpr: two side-effect-free expressions denote the same value: identical
+// SSA values, or loads of structurally equal addresses (same field path / same
+// indexed element with the same index value).
+func sameExpr(p, q ssa.Value) bool {
+	p, q = ir.SeeThrough(p), ir.SeeThrough(q)
+	if p == q {
+		return true
+	}
+	switch x := p.(type) {
+	case *ssa.UnOp:
+		y, ok := q.(*ssa.UnOp)
+		return ok && x.Op == y.Op && sameExpr(x.X, y.X)
+	case *ssa.FieldAddr:
+		y, ok := q.(*ssa.FieldAddr)
+		return ok && x.Field == y.Field && sameExpr(x.X, y.X)
+	case *ssa.IndexAddr:
+		y, ok := q.(*ssa.IndexAddr)
+		return ok && sameExpr(x.Index, y.Index) && sameExpr(x.X, y.X)
+	case *ssa.Global:
+		return false
 	}
 	return false
 }
